@@ -336,7 +336,7 @@ func run(sc vlib.Scenario, cfg vsched.Config) (*vsched.Result, vlib.Verdict) {
 		streamLevel := strings.HasPrefix(p.name, "Upstream.") || strings.HasPrefix(p.name, "Downstream.")
 		if p.err == nil {
 			if !p.nilOK {
-				v.Fail("C10.post-nil", p.name+"/"+w.p.Order, "%s on a closed object returned nil (order %s)", p.name, w.p.Order)
+				v.Fail("C10.post-nil", fmt.Sprintf("%s/%s/dev=%v", p.name, w.p.Order, dev), "%s on a closed object returned nil (order %s)", p.name, w.p.Order)
 			}
 			continue
 		}
